@@ -531,8 +531,26 @@ func TestC07(t *testing.T) {
 		}
 		ops = append(ops, Op{K: "publish", Topic: "d", Msgs: dmsgs}, Op{K: "pull", Sub: "src", Max: 100}, Op{K: "advance", D: 700 * Sec},
 			Op{K: "dl_sweep", Max: 100})
+		// the filter of a subscription is replaced (UpdateSubscription, path "filter"): routing follows the
+		// filter the subscription has now, not one it had earlier
+		for i := range filters {
+			ops = append(ops, Op{K: "rpc", Rpc: &Rpc{Kind: "updateSub", Has: true, Paths: []string{"filter"},
+				Sub: &SubReq{Name: SubName(fmt.Sprintf("f%d", i)), Topic: TopicName("t"), Filter: filters[(i+3)%len(filters)]}}})
+		}
+		var dmsgs2 []MsgSpec
+		for i, a := range attrs {
+			ops = append(ops, Op{K: "publish", Topic: "t", Msgs: []MsgSpec{{N: 200 + i, Attrs: a}}})
+			dmsgs2 = append(dmsgs2, MsgSpec{N: 300 + i, Attrs: a})
+		}
+		ops = append(ops, Op{K: "publish", Topic: "d", Msgs: dmsgs2}, Op{K: "pull", Sub: "src", Max: 100}, Op{K: "advance", D: 700 * Sec},
+			Op{K: "dl_sweep", Max: 100})
 		h := RunHistory(t, Seed(), nil, ops, 0, false)
-		st.Count("delivery_level_publishes", len(attrs)*2)
+		st.Count("delivery_level_publishes", len(attrs)*4)
+		st.Count("delivery_level_filter_updates", len(filters))
+		if d, err := m.Check(h.Lines); err == nil && d != nil {
+			p := writeReplay(fmt.Sprintf("C07-delivery-correspondence-%d.json", Seed()), replayFile{Property: "C07", Sig: "correspondence", Seed: Seed(), Ops: ops, What: d.String()})
+			st.Violate(Violation{What: "correspondence with the model broken on the delivery-level history: " + d.String(), Replay: p, FoundInput: false, Sig: "correspondence"})
+		}
 		for _, f := range h.Findings {
 			if (f.Prop == "C01" && f.Sig == "enqueue") || (f.Prop == "C02" && (f.Sig == "filter" || f.Sig == "forward-filter")) || (f.Prop == "C06" && (f.Sig == "forward-missing" || f.Sig == "forward-filter")) || f.Prop == "C07" {
 				p := writeReplay(fmt.Sprintf("C07-delivery-%d.json", Seed()), replayFile{Property: "C07", Sig: "delivery", Seed: Seed(), Ops: ops, What: f.What})
